@@ -26,10 +26,10 @@ import (
 )
 
 type keyPair struct {
-	name      string
-	signer    signature.Key
-	verifier  any
-	otherVer  any
+	name     string
+	signer   signature.Key
+	verifier any
+	otherVer any
 }
 
 type es256Signer struct{ *ecdsa.PrivateKey }
@@ -100,23 +100,41 @@ func mutations() []mutation {
 		}},
 		{"command", true, func(s *pipeline.CommandStep, _ map[string]string, _ *string, _ *pipeline.Signature) { s.Command += " " }},
 		{"step-env-value", true, func(s *pipeline.CommandStep, _ map[string]string, _ *string, _ *pipeline.Signature) { s.Env["A"] = "2" }},
-		{"step-env-added", true, func(s *pipeline.CommandStep, _ map[string]string, _ *string, _ *pipeline.Signature) { s.Env["NEW"] = "x" }},
-		{"step-env-removed", true, func(s *pipeline.CommandStep, _ map[string]string, _ *string, _ *pipeline.Signature) { delete(s.Env, "A") }},
+		{"step-env-added", true, func(s *pipeline.CommandStep, _ map[string]string, _ *string, _ *pipeline.Signature) {
+			s.Env["NEW"] = "x"
+		}},
+		{"step-env-removed", true, func(s *pipeline.CommandStep, _ map[string]string, _ *string, _ *pipeline.Signature) {
+			delete(s.Env, "A")
+		}},
 		{"plugin-order", true, func(s *pipeline.CommandStep, _ map[string]string, _ *string, _ *pipeline.Signature) {
 			s.Plugins[0], s.Plugins[1] = s.Plugins[1], s.Plugins[0]
 		}},
 		{"plugin-config", true, func(s *pipeline.CommandStep, _ map[string]string, _ *string, _ *pipeline.Signature) {
 			s.Plugins[0].Config = map[string]any{"image": "ubuntu", "n": 1}
 		}},
-		{"plugin-ref", true, func(s *pipeline.CommandStep, _ map[string]string, _ *string, _ *pipeline.Signature) { s.Plugins[0].Source = "docker#v2" }},
-		{"plugin-removed", true, func(s *pipeline.CommandStep, _ map[string]string, _ *string, _ *pipeline.Signature) { s.Plugins = s.Plugins[:1] }},
-		{"matrix-value", true, func(s *pipeline.CommandStep, _ map[string]string, _ *string, _ *pipeline.Signature) { s.Matrix.Setup["os"][0] = "bsd" }},
-		{"matrix-skip", true, func(s *pipeline.CommandStep, _ map[string]string, _ *string, _ *pipeline.Signature) { s.Matrix.Adjustments[0].Skip = false }},
+		{"plugin-ref", true, func(s *pipeline.CommandStep, _ map[string]string, _ *string, _ *pipeline.Signature) {
+			s.Plugins[0].Source = "docker#v2"
+		}},
+		{"plugin-removed", true, func(s *pipeline.CommandStep, _ map[string]string, _ *string, _ *pipeline.Signature) {
+			s.Plugins = s.Plugins[:1]
+		}},
+		{"matrix-value", true, func(s *pipeline.CommandStep, _ map[string]string, _ *string, _ *pipeline.Signature) {
+			s.Matrix.Setup["os"][0] = "bsd"
+		}},
+		{"matrix-skip", true, func(s *pipeline.CommandStep, _ map[string]string, _ *string, _ *pipeline.Signature) {
+			s.Matrix.Adjustments[0].Skip = false
+		}},
 		{"matrix-removed", true, func(s *pipeline.CommandStep, _ map[string]string, _ *string, _ *pipeline.Signature) { s.Matrix = nil }},
 		{"repo-url", true, func(_ *pipeline.CommandStep, _ map[string]string, u *string, _ *pipeline.Signature) { *u += "/" }},
-		{"pipeline-env-value", true, func(_ *pipeline.CommandStep, env map[string]string, _ *string, _ *pipeline.Signature) { env["P"] = "changed" }},
-		{"pipeline-env-missing", true, func(_ *pipeline.CommandStep, env map[string]string, _ *string, _ *pipeline.Signature) { delete(env, "P") }},
-		{"pipeline-env-now-shadowed", true, func(s *pipeline.CommandStep, _ map[string]string, _ *string, _ *pipeline.Signature) { s.Env["P"] = "pipeline" }},
+		{"pipeline-env-value", true, func(_ *pipeline.CommandStep, env map[string]string, _ *string, _ *pipeline.Signature) {
+			env["P"] = "changed"
+		}},
+		{"pipeline-env-missing", true, func(_ *pipeline.CommandStep, env map[string]string, _ *string, _ *pipeline.Signature) {
+			delete(env, "P")
+		}},
+		{"pipeline-env-now-shadowed", true, func(s *pipeline.CommandStep, _ map[string]string, _ *string, _ *pipeline.Signature) {
+			s.Env["P"] = "pipeline"
+		}},
 		{"drop-mandatory-field", true, func(_ *pipeline.CommandStep, _ map[string]string, _ *string, sig *pipeline.Signature) {
 			var f []string
 			for _, x := range sig.SignedFields {
@@ -140,7 +158,9 @@ func mutations() []mutation {
 			sig.SignedFields = append(append([]string{}, sig.SignedFields...), "env::EXTRA")
 			sort.Strings(sig.SignedFields)
 		}},
-		{"algorithm-name", true, func(_ *pipeline.CommandStep, _ map[string]string, _ *string, sig *pipeline.Signature) { sig.Algorithm = "HS256" }},
+		{"algorithm-name", true, func(_ *pipeline.CommandStep, _ map[string]string, _ *string, sig *pipeline.Signature) {
+			sig.Algorithm = "HS256"
+		}},
 	}
 }
 
@@ -251,7 +271,11 @@ func TestC14(t *testing.T) {
 	}
 	for _, emptyForm := range []func(*pipeline.CommandStep){
 		func(s *pipeline.CommandStep) { s.Env = nil; s.Plugins = nil; s.Matrix = nil },
-		func(s *pipeline.CommandStep) { s.Env = map[string]string{}; s.Plugins = pipeline.Plugins{}; s.Matrix = &pipeline.Matrix{} },
+		func(s *pipeline.CommandStep) {
+			s.Env = map[string]string{}
+			s.Plugins = pipeline.Plugins{}
+			s.Matrix = &pipeline.Matrix{}
+		},
 	} {
 		s, e := base()
 		emptyForm(s)
@@ -266,13 +290,35 @@ func TestC14(t *testing.T) {
 	// must not collide: boundary shifts and single-point variants
 	type variant func(*pipeline.CommandStep, map[string]string, *string)
 	variants := map[string]variant{
-		"cmd-to-url":          func(s *pipeline.CommandStep, _ map[string]string, u *string) { s.Command += "u"; *u = "rl" },
-		"key-to-value":        func(s *pipeline.CommandStep, _ map[string]string, _ *string) { delete(s.Env, "A"); s.Env["A1"] = "" },
+		"cmd-to-url":           func(s *pipeline.CommandStep, _ map[string]string, u *string) { s.Command += "u"; *u = "rl" },
+		"key-to-value":         func(s *pipeline.CommandStep, _ map[string]string, _ *string) { delete(s.Env, "A"); s.Env["A1"] = "" },
 		"step-env-to-pipeline": func(s *pipeline.CommandStep, e map[string]string, _ *string) { delete(s.Env, "A"); e["A"] = "1" },
-		"env-prefix-in-step":  func(s *pipeline.CommandStep, e map[string]string, _ *string) { delete(e, "P"); s.Env["env::P"] = "pipeline" },
-		"plugin-config-key":   func(s *pipeline.CommandStep, _ map[string]string, _ *string) { s.Plugins[0].Config = map[string]any{"imag": "ealpine", "n": 1} },
-		"number-vs-string":    func(s *pipeline.CommandStep, _ map[string]string, _ *string) { s.Plugins[0].Config = map[string]any{"image": "alpine", "n": "1"} },
-		"pipeline-env-value":  func(_ *pipeline.CommandStep, e map[string]string, _ *string) { e["P"] = "pipelin"; e["Q"] = "eq" },
+		"env-prefix-in-step": func(s *pipeline.CommandStep, e map[string]string, _ *string) {
+			delete(e, "P")
+			s.Env["env::P"] = "pipeline"
+		},
+		"plugin-config-key": func(s *pipeline.CommandStep, _ map[string]string, _ *string) {
+			s.Plugins[0].Config = map[string]any{"imag": "ealpine", "n": 1}
+		},
+		"number-vs-string": func(s *pipeline.CommandStep, _ map[string]string, _ *string) {
+			s.Plugins[0].Config = map[string]any{"image": "alpine", "n": "1"}
+		},
+		"pipeline-env-value": func(_ *pipeline.CommandStep, e map[string]string, _ *string) { e["P"] = "pipelin"; e["Q"] = "eq" },
+		"matrix-mixed-dims-1": func(s *pipeline.CommandStep, _ map[string]string, _ *string) {
+			s.Matrix = &pipeline.Matrix{Setup: pipeline.MatrixSetup{"": {"a", "b"}, "target": {"staging"}}, Adjustments: s.Matrix.Adjustments}
+		},
+		"matrix-mixed-dims-2": func(s *pipeline.CommandStep, _ map[string]string, _ *string) {
+			s.Matrix = &pipeline.Matrix{Setup: pipeline.MatrixSetup{"": {"a", "b"}, "target": {"production"}}, Adjustments: s.Matrix.Adjustments}
+		},
+		"matrix-anon-only": func(s *pipeline.CommandStep, _ map[string]string, _ *string) {
+			s.Matrix = &pipeline.Matrix{Setup: pipeline.MatrixSetup{"": {"a", "b"}}, Adjustments: s.Matrix.Adjustments}
+		},
+		"matrix-adjustment-with": func(s *pipeline.CommandStep, _ map[string]string, _ *string) {
+			s.Matrix.Adjustments[0].With = pipeline.MatrixAdjustmentWith{"os": "win", "arch": "arm64"}
+		},
+		"matrix-extra-field": func(s *pipeline.CommandStep, _ map[string]string, _ *string) {
+			s.Matrix.RemainingFields = map[string]any{"x": 1}
+		},
 	}
 	seen := map[string]string{"base": p0}
 	for name, v := range variants {
@@ -292,9 +338,13 @@ func TestC14(t *testing.T) {
 	fmt.Printf("BOUNDED name=c14-payloads cases=%d failures=%d\n", cases, failures)
 }
 
-func genSteps(depth, seed int, withUnknown bool) pipeline.Steps {
+// genSteps builds a step tree; unkAt >= 0 places an unknown step at the END of
+// the list at nesting level unkAt (after any groups), along the first-group
+// path (lastPath=false) or the last-group path (lastPath=true).
+func genSteps(depth, seed, level, unkAt int, lastPath bool) pipeline.Steps {
 	var out pipeline.Steps
 	n := 2 + seed%2
+	var groups []int
 	for i := 0; i < n; i++ {
 		switch (seed + i) % 4 {
 		case 0:
@@ -303,8 +353,8 @@ func genSteps(depth, seed int, withUnknown bool) pipeline.Steps {
 			out = append(out, &pipeline.WaitStep{Scalar: "wait"})
 		case 2:
 			if depth > 0 {
-				g := "g"
-				out = append(out, &pipeline.GroupStep{Group: &g, Steps: genSteps(depth-1, seed+i+1, withUnknown && i == 0)})
+				groups = append(groups, len(out))
+				out = append(out, nil) // filled below
 			} else {
 				out = append(out, &pipeline.InputStep{Scalar: "block"})
 			}
@@ -312,7 +362,20 @@ func genSteps(depth, seed int, withUnknown bool) pipeline.Steps {
 			out = append(out, &pipeline.TriggerStep{Contents: map[string]any{"trigger": "x"}})
 		}
 	}
-	if withUnknown && depth == 0 {
+	if depth > 0 && len(groups) == 0 {
+		groups = append(groups, len(out))
+		out = append(out, nil)
+	}
+	for gi, pos := range groups {
+		onPath := (gi == 0 && !lastPath) || (gi == len(groups)-1 && lastPath)
+		sub := -1
+		if onPath {
+			sub = unkAt
+		}
+		g := "g"
+		out[pos] = &pipeline.GroupStep{Group: &g, Steps: genSteps(depth-1, seed+pos+1, level+1, sub, lastPath)}
+	}
+	if unkAt == level {
 		out = append(out, &pipeline.UnknownStep{Contents: "mystery"})
 	}
 	return out
@@ -340,55 +403,60 @@ func TestC06(t *testing.T) {
 	for _, kp := range kps {
 		for depth := 0; depth <= 4; depth++ {
 			for seed := 0; seed < maxSeed; seed++ {
-				for _, unk := range []bool{false, true} {
-					steps := genSteps(depth, seed, unk)
-					env := map[string]string{"P": "v", "SHADOW": "pipeline"}
-					envBefore := map[string]string{"P": "v", "SHADOW": "pipeline"}
-					before, _ := json.Marshal(steps)
-					err := signature.SignSteps(ctx, steps, kp.signer, "repo", signature.WithEnv(env))
-					cases++
-					hasUnknown := strings.Contains(string(before), "mystery")
-					if hasUnknown {
-						if err == nil {
-							failures++
-							t.Errorf("%s depth %d seed %d: unknown step present but SignSteps succeeded", kp.name, depth, seed)
+				for unkAt := -1; unkAt <= depth; unkAt++ {
+					for _, lastPath := range []bool{false, true} {
+						if unkAt < 0 && lastPath {
+							continue
 						}
-						continue
-					}
-					if err != nil {
-						failures++
-						t.Errorf("%s depth %d seed %d: %v", kp.name, depth, seed, err)
-						continue
-					}
-					if !reflect.DeepEqual(env, envBefore) {
-						failures++
-						t.Errorf("SignSteps modified the caller's env map")
-					}
-					walk(steps, func(c *pipeline.CommandStep) {
-						if c.Signature == nil {
-							failures++
-							t.Errorf("%s depth %d seed %d: unsigned command step %q", kp.name, depth, seed, c.Command)
-							return
+						steps := genSteps(depth, seed, 0, unkAt, lastPath)
+						env := map[string]string{"P": "v", "SHADOW": "pipeline"}
+						envBefore := map[string]string{"P": "v", "SHADOW": "pipeline"}
+						before, _ := json.Marshal(steps)
+						err := signature.SignSteps(ctx, steps, kp.signer, "repo", signature.WithEnv(env))
+						cases++
+						hasUnknown := strings.Contains(string(before), "mystery")
+						if hasUnknown {
+							if err == nil {
+								failures++
+								t.Errorf("%s depth %d seed %d: unknown step present but SignSteps succeeded", kp.name, depth, seed)
+							}
+							continue
 						}
-						want := []string{"command", "env", "env::P", "matrix", "plugins", "repository_url"}
-						if !reflect.DeepEqual(c.Signature.SignedFields, want) {
+						if err != nil {
 							failures++
-							t.Errorf("signed fields %v, want %v", c.Signature.SignedFields, want)
+							t.Errorf("%s depth %d seed %d: %v", kp.name, depth, seed, err)
+							continue
 						}
-						if c.Signature.Algorithm != kp.signer.Algorithm().String() {
+						if !reflect.DeepEqual(env, envBefore) {
 							failures++
-							t.Errorf("algorithm %q", c.Signature.Algorithm)
+							t.Errorf("SignSteps modified the caller's env map")
 						}
-						if err := signature.Verify(ctx, c.Signature, kp.verifier, &signature.CommandStepWithInvariants{CommandStep: *c, RepositoryURL: "repo"}, signature.WithEnv(env)); err != nil {
+						walk(steps, func(c *pipeline.CommandStep) {
+							if c.Signature == nil {
+								failures++
+								t.Errorf("%s depth %d seed %d: unsigned command step %q", kp.name, depth, seed, c.Command)
+								return
+							}
+							want := []string{"command", "env", "env::P", "matrix", "plugins", "repository_url"}
+							if !reflect.DeepEqual(c.Signature.SignedFields, want) {
+								failures++
+								t.Errorf("signed fields %v, want %v", c.Signature.SignedFields, want)
+							}
+							if c.Signature.Algorithm != kp.signer.Algorithm().String() {
+								failures++
+								t.Errorf("algorithm %q", c.Signature.Algorithm)
+							}
+							if err := signature.Verify(ctx, c.Signature, kp.verifier, &signature.CommandStepWithInvariants{CommandStep: *c, RepositoryURL: "repo"}, signature.WithEnv(env)); err != nil {
+								failures++
+								t.Errorf("signature does not verify: %v", err)
+							}
+							c.Signature = nil
+						})
+						after, _ := json.Marshal(steps)
+						if string(after) != string(before) {
 							failures++
-							t.Errorf("signature does not verify: %v", err)
+							t.Errorf("SignSteps changed more than signatures")
 						}
-						c.Signature = nil
-					})
-					after, _ := json.Marshal(steps)
-					if string(after) != string(before) {
-						failures++
-						t.Errorf("SignSteps changed more than signatures")
 					}
 				}
 			}
